@@ -72,6 +72,9 @@ type Job struct {
 	Errno   int    `json:"errno,omitempty"`
 	Forever bool   `json:"forever,omitempty"`
 	Sig     int    `json:"sig,omitempty"`
+	// second, independent fault point (mode "fault" only; K2 < 0 = none)
+	K2     int `json:"k2"`
+	Errno2 int `json:"errno2,omitempty"`
 	// TrackStdout: treat writes to fd 1 as file-system calls of the scenario.
 	TrackStdout bool `json:"track_stdout,omitempty"`
 	StdoutFile  string `json:"stdout_file,omitempty"`
@@ -383,9 +386,14 @@ func Trace(job Job) (res Result) {
 								if !hit && job.Forever && k > job.K && faultKind != "" && p.call.Kind() == faultKind {
 									hit = true
 								}
+								en := job.Errno
+								if !hit && job.K2 > 0 && k == job.K2 {
+									hit = true
+									en = job.Errno2
+								}
 								if hit {
 									p.inject = true
-									p.errno = job.Errno
+									p.errno = en
 									regs.Orig_rax = ^uint64(0)
 									syscall.PtraceSetRegs(wpid, &regs)
 									res.Injected++
